@@ -2,6 +2,7 @@
    `storage_history` runs `Storage.runHistory` on the history the probe op `write_history` ran through
    the real code; `c02_holds`, `c02_bracket`, `c13_holds` evaluate the judges of Spec/C02, Spec/C13. -/
 import Drv.Common
+import AcmedVerif.Model.Pem
 import AcmedVerif.Model.Fs
 import AcmedVerif.Model.Storage
 import AcmedVerif.Spec.C02
@@ -155,8 +156,19 @@ def opStoragePath (j : Json) : Json :=
   Json.mkObj [("path", String.ofList (Storage.fullPath (str j "account_dir").toList (str j "crt_dir").toList
     (stFtype (str j "ftype")) (str j "file_name").toList))]
 
+/-- C02.2 on a finished successful attempt: key file vs CSR (public keys as hex DER or null), and the
+key file as a PEM text (strict split). -/
+def opC02Key (j : Json) : Json :=
+  let optHex (k : String) : Option (List UInt8) := if isNull (get j k) then none else some (unhex (str j k))
+  let sp := Pem.pemSplit (str j "key_text")
+  let label := match sp.1 with | b :: _ => b.1 | [] => ""
+  Json.mkObj [("key_is_csr_key", Spec.C02.keyIsCsrKey (optHex "key_file_pub_hex") (optHex "csr_pub_hex")),
+              ("key_file_exact", Spec.C02.keyFileExact sp.1.length label sp.2.isSome),
+              ("blocks", (sp.1.length : Nat)), ("label", label), ("residue", sp.2.isSome)]
+
 def opsStorage : List (String × (Json → Json)) :=
   [("storage_history", opStorageHistory), ("c02_holds", opC02Holds), ("c02_bracket", opC02Bracket),
+   ("c02_key", opC02Key),
    ("c13_holds", opC13Holds), ("storage_defaults", opStorageDefaults), ("storage_path", opStoragePath)]
 
 end Drv
